@@ -64,8 +64,8 @@ Proof. exact (acc_rate_01 K). Qed.
 Theorem C16_selection_proportional :
   forall (s : ld K) (fuel : nat) k,
     ld_inv K s -> weighted s = true -> 0 < total s -> In k (items s) ->
-    sel_prob K Keqb (S fuel) s k == (wread K s k / total s) * term_prob K (S fuel) s
-    /\ 0 < term_prob K (S fuel) s.
+    sel_prob K Keqb (S fuel) s k == (wread K s k / total s) * term_prob K Keqb (S fuel) s
+    /\ 0 < term_prob K Keqb (S fuel) s.
 Proof. exact (selection_proportional K Keqb Keqb_spec). Qed.
 
 (* ... zero-weight candidates and absent keys are never selected ... *)
